@@ -7,6 +7,7 @@ package syntax
 import (
 	"regexp"
 	re_syntax "regexp/syntax"
+	"strconv"
 	"unicode"
 	"unicode/utf8"
 )
@@ -241,12 +242,35 @@ var (
 			`))*"`,
 		LITSTRING,
 	)
-	tokFloatRule = regexpRule(`^-?\d+(:?(?:\.\d+)?[eE][+-]?|\.)\d+\b`, NUM_FLOAT)
-	tokIntRule   = regexpRule(`^-?0*\d{1,19}\b`, NUM_INT)
+	tokFloatRule = parseableRule(
+		regexpRule(`^-?\d+(?:(?:\.\d+)?[eE][+-]?|\.)\d+\b`, NUM_FLOAT),
+		func(b []byte) bool {
+			_, err := strconv.ParseFloat(string(b), 64)
+			return err == nil
+		})
+	tokIntRule = parseableRule(
+		regexpRule(`^-?0*\d{1,19}\b`, NUM_INT),
+		func(b []byte) bool {
+			_, err := strconv.ParseInt(string(b), 10, 64)
+			return err == nil
+		})
 
 	// Identifiers for filetypes, stages, etc.
 	tokIdRule = regexpRule(`^_?[[:alpha:]]\w*\b`, ID)
 )
+
+// parseableRule restricts a rule to matches which also pass the given
+// check.  The parser promises that numeric tokens can be converted, so
+// numbers which match the pattern but are out of range must not become
+// tokens (they are reported as unexpected text instead).
+func parseableRule(r rule, ok func([]byte) bool) rule {
+	return func(b []byte) ([]byte, int) {
+		if v, id := r(b); len(v) > 0 && ok(v) {
+			return v, id
+		}
+		return nil, INVALID
+	}
+}
 
 func nextToken(head []byte) (int, []byte) {
 	val, tokid := keywordToken(head)
